@@ -34,7 +34,10 @@ def _tril(rng, n, unit=True):
 def make_instance(rng, kind, *, K=None, n=None, d=None, zero_init=False, force_full=False):
     """reverse Markov sequence with K conditionals (K+1 time points)"""
     K = rng.randint(0, 2) if K is None else K
-    n = rng.randint(1, 2) if n is None else n
+    # (a quarter of the instances carry three Taylor coefficients, so that the observed coefficient index 2 occurs)
+    n = (3 if rng.random() < 0.25 else rng.randint(1, 2)) if n is None else n
+    if n == 3:
+        K = min(K, 1)
     d = 1 if kind == "dense" and rng.random() < 0.3 and not force_full else (rng.randint(1, 2) if d is None else d)
     if force_full:
         d = 2
@@ -73,7 +76,7 @@ def make_instance(rng, kind, *, K=None, n=None, d=None, zero_init=False, force_f
         full = dict(LP=couple(_emb_mat(blocks, lambda b: b["LP"], n, n, d), True) if not zero_init else _emb_mat(blocks, lambda b: b["LP"], n, n, d),
                     conds=[dict(A=couple(_emb_mat(blocks, lambda b, s=s: b["conds"][s]["A"], n, n, d), False),
                                 LQ=couple(_emb_mat(blocks, lambda b, s=s: b["conds"][s]["LQ"], n, n, d), True)) for s in range(K)])
-    idx = rng.randint(0, n - 1)
+    idx = rng.randint(0, n - 1) if n < 3 or rng.random() < 0.4 else 2
     noise_sd = []
     for _ in range(K + 1):
         v = [rng.choice([F(1, 2), F(1), F(2)]) for _ in range(d)]
